@@ -171,3 +171,50 @@ M.contract(F, "CommonFormatter.cmd_paths", params=dict(self=Fmt, patch=PatchT), 
 
 _q = {c.qual: c for c in M.contracts}
 _q["CommonFormatter.cmd_paths"].calls["self.blocks_and_context"] = _q["CommonFormatter.blocks_and_context"]
+
+
+# ==================================================================================================================
+# the text side: patch() / join() = "\n".join(rows of the indented token stream)
+@M.spec
+def toks_of(tc: SeqTokCtx) -> SeqTok:
+    return [] if len(tc) == 0 else [tc[0][0]] + toks_of(tc[1:])
+
+
+@M.spec
+def rows_only(blocks: SeqTok) -> SeqStr:
+    """the rows of a token stream, block markers dropped"""
+    if len(blocks) == 0:
+        return []
+    return ([blocks[0]] if isinstance(blocks[0], str) else []) + rows_only(blocks[1:])
+
+
+M.lemma("filter_is_rows_only", vars=dict(blocks=SeqTok), hyps=[], goal="[b for b in blocks if isinstance(b, str)] == rows_only(blocks)",
+        induct="blocks", pattern="[b for b in blocks if isinstance(b, str)]", comp_types={"*": SeqStr}, properties=["C09", "C04"])
+
+M.contract(F, "_filtered_block_marks", params=dict(blocks=SeqTok), ret=SeqStr, comp_types={"*": SeqStr},
+           ensures=["result == rows_only(blocks)"], use=["filter_is_rows_only"],
+           canaries=["len(result) == len(blocks)"], properties=["C09", "C04"],
+           inputs=lambda: (dict(blocks=s) for s in _streams(4)), native_fn=lambda blocks: list(_t._filtered_block_marks(blocks)))
+
+M.contract(F, "CommonFormatter._blocks", params=dict(self=Fmt, tree=PatchT, is_patch=BOOL), yields=SeqTok,
+           calls={"self.blocks_and_context": None},
+           ensures=["result == toks_of(stream(self, tree, is_patch))"],
+           loops={1: dict(match="self.blocks_and_context(tree, is_patch)", inv=["_out + toks_of(_rest1) == toks_of(_it1)"])},
+           canaries=["len(result) == 0"], properties=["C09", "C04"],
+           inputs=lambda: (dict(self=c["self"], tree=c["patch"], is_patch=True) for c in _cmd_inputs()))
+
+M.contract(F, "CommonFormatter.patch", params=dict(self=Fmt, patch=PatchT), ret=STR,
+           ensures=["result == '\\n'.join(rows_only(spec_indent(toks_of(stream(self, patch, True)), 0, self._indent)))"],
+           canaries=["len(result) == 0"], properties=["C09", "C01"], inputs=_cmd_inputs,
+           note="the text shown for a patch: one line per row of the token stream, indented by its nesting level")
+M.contract(F, "CommonFormatter.join", params=dict(self=Fmt, config=PatchT), ret=STR,
+           ensures=["result == '\\n'.join(rows_only(spec_indent(toks_of(stream(self, config, False)), 0, self._indent)))"],
+           canaries=["len(result) == 0"], properties=["C04"],
+           note="the text of a config tree (relative to blocks_and_context)")
+
+_q = {c.qual: c for c in M.contracts}
+_q["CommonFormatter._blocks"].calls["self.blocks_and_context"] = _q["CommonFormatter.blocks_and_context"]
+for _fn in ("CommonFormatter.patch", "CommonFormatter.join"):
+    _q[_fn].calls["self._blocks"] = _q["CommonFormatter._blocks"]
+    _q[_fn].calls["self._indent_blocks"] = _q["CommonFormatter._indent_blocks"]
+    _q[_fn].calls["_filtered_block_marks"] = _q["_filtered_block_marks"]
